@@ -1121,7 +1121,7 @@ func ZZ_%(P)s_%(N)s_Symbolic() {
 	} else {
 		zzRun_%(N)s(true, 1, 1, 0)
 	}
-}%(shrink)s''' % dict(shrink=self.shrink(), symdeep=('false /* two symbolic keys + 1 operation: one type alone ran for more than 15 minutes, the 13 types do not finish in a sweep: outside, the thorough tier keeps the quick bound */' if P == 'C09' else 'false /* plain types only have the 101-bucket table: two symbolic keys = 101 x 101 bucket pairs, not finished in 40 min */'), N=N, P=P, pd=pooldesc, nops=len(t['ops']), dir=DIRECTIVE[(P, 'Pool')], dirs=DIRECTIVE[(P, 'Symbolic')],
+}%(shrink)s%(grow)s''' % dict(shrink=self.shrink(), grow=self.growins(), symdeep=('false /* two symbolic keys + 1 operation: one type alone ran for more than 15 minutes, the 13 types do not finish in a sweep: outside, the thorough tier keeps the quick bound */' if P == 'C09' else 'false /* plain types only have the 101-bucket table: two symbolic keys = 101 x 101 bucket pairs, not finished in 40 min */'), N=N, P=P, pd=pooldesc, nops=len(t['ops']), dir=DIRECTIVE[(P, 'Pool')], dirs=DIRECTIVE[(P, 'Symbolic')],
             lkdoc=' (LinkedKey: symbolic Hash() and symbolic id, so collisions between unequal keys arise by solving)' if self.k == 'lk' else ''))
 
     def shrink(self):
@@ -1164,6 +1164,50 @@ func ZZ_%(P)s_%(N)s_Shrink() {
 	zzvf.Reach(what)
 }''' % dict(N=N, P=t['prop'], ins=', '.join('"%s"' % o for o in ins), put=self.ins[0],
                     pre='0, 1, 3' if self.k == 'str' else '0, 1, 2', last='4, 0, 3' if self.k == 'str' else '3, 0, 2')
+
+    def growins(self):
+        """C09 linked types: an insertion through ANY put/add variant, then growth of the table, then the
+        complete state (incl. bucket lookups) is compared -- an entry whose bookkeeping (stored hash, links)
+        is only wrong for one insertion variant shows when a later growth re-buckets it"""
+        t, N = self.t, self.N
+        if t['prop'] != 'C09':
+            return ''
+        ins = [o for o in t['ops'] if o.startswith('put') or o.startswith('add')]
+        return '''
+
+var zzGrowIns_%(N)s = []string{%(ins)s}
+
+// InsertThenGrow: four insertions of four distinct non-empty pool keys into a table of capacity 1..3
+// (so the table grows once or twice AFTER the early insertions); ONE of the first three insertions
+// goes through an arbitrary put/add variant, the others are plain; then one lookup-style operation
+// and the complete observable state (incl. "every stored key is found by lookup").
+//vf:paths=20000 deadline=4m
+func ZZ_%(P)s_%(N)s_InsertThenGrow() {
+	what := "%(N)s/insert-then-grow"
+	cfg := zzCfgAll[zzvf.Choose(len(zzCfgAll))]
+	m := zzNew_%(N)s(cfg.cap, cfg.lf)
+	ref := &zzM_%(N)s{poolN: 5}
+	pos := zzvf.Choose(3)
+	ins := zzGrowIns_%(N)s[zzvf.Choose(len(zzGrowIns_%(N)s))]
+	for i, k := range []int{%(keys)s} {
+		zzForceKey = k
+		op := "%(put)s"
+		if i == pos {
+			op = ins
+		}
+		zzStep_%(N)s(m, ref, op, false, what)
+	}
+	zzForceKey = []int{%(keys)s}[pos]
+	zzStep_%(N)s(m, ref, []string{"containskey", "remove", "%(put)s"}[zzvf.Choose(3)], false, what)
+	zzForceKey = -1
+	if ref.diverged {
+		zzvf.Reach(what)
+		return
+	}
+	zzvf.Guard(what+"/enumerate/no-deadlock", func() { zzCheck_%(N)s(m, ref, what) })
+	zzvf.Reach(what)
+}''' % dict(N=N, P=t['prop'], ins=', '.join('"%s"' % o for o in ins), put=self.ins[0],
+                    keys='0, 1, 3, 4' if self.k == 'str' else '0, 1, 2, 3')
 
     def generate(self):
         N, t = self.N, self.t
